@@ -27,13 +27,13 @@ Classify(c, i0, j) ==
   IF j = 0 THEN "pc_not_in_execution"
   ELSE IF j = Exited THEN "ran_to_exit"
   ELSE IF j <= i0 THEN "went_backwards"
-  ELSE IF c = "finish" THEN (IF j < EndAct(i0) THEN "stopped_before_return" ELSE "wrong_caller_frame")
+  ELSE IF c = "finish" THEN (IF j < EndActT[i0] THEN "stopped_before_return" ELSE "wrong_caller_frame")
   ELSE IF c = "stepi" THEN "not_one_instruction"
   ELSE IF j > MaxOf(Adm(c, i0) \cup {0}) /\ MaxOf(Adm(c, i0) \cup {0}) # Exited THEN
           (IF D(j) > D(i0) /\ Fn(j) = Fn(i0) THEN "deeper_activation_same_function"
            ELSE IF D(j) > D(i0) THEN "inside_callee_past_boundary"
            ELSE "past_first_line_boundary")
-  ELSE IF c = "next" /\ D(j) > D(i0) /\ j < EndAct(i0) THEN
+  ELSE IF c = "next" /\ D(j) > D(i0) /\ j < EndActT[i0] THEN
           (IF Fn(j) = Fn(i0) THEN "deeper_activation_same_function" ELSE "inside_callee")
   ELSE IF ~St(j) THEN "not_a_statement_boundary"
   ELSE "not_admissible"
@@ -59,7 +59,9 @@ Consume ==
   /\ l <= Len(Rec)
   /\ LET e == Rec[l] k == l IN
      /\ l' = l + 1
-     /\ CASE e.cmd = "break" ->
+     /\ CASE e.cmd = "reset" ->          \* a new session starts (several sessions are judged in one run)
+               /\ ti' = 0 /\ tbp' = {} /\ viol' = viol
+          [] e.cmd = "break" ->
                /\ tbp' = IF e.ok THEN tbp \cup SeqToSet(e.addrs) ELSE tbp
                /\ ti' = ti
                /\ viol' = viol \o PatchChecks(k, e, IF ti = 0 THEN {} ELSE tbp')
